@@ -26,6 +26,15 @@ def tasks(tier, seed):
 def dfa_text(rng, alphabets=("a", "ab", "ab", "abc", "01")):
     import gambatools.dfa_algorithms as da
     D = U.random_dfa(rng, rng.randint(1, 4), rng.choice(alphabets), prefix=rng.choice(["s", "q", "p"]))
+    if rng.random() < 0.3:
+        # a declared state nothing leads to, with moves and acceptance of its own (the exercises are about the DECLARED
+        # automaton: the minimisation checkers count the classes of all its states)
+        qs = sorted(D.Q)
+        for a in sorted(D.Sigma):
+            D.delta["zz", a] = rng.choice(qs + ["zz"])
+        D.Q.add("zz")
+        if rng.random() < 0.5:
+            D.F.add("zz")
     return D, da.print_dfa(D)
 
 
